@@ -49,7 +49,9 @@ Definition cpl_of (n : nat) (o : option (list nat)) : list nat :=
 
 (* ---- the abstract world ------------------------------------------------------------------ *)
 Record sdef := mkSDef { d_supers : list nat; d_slots : list slotdef }.
-Record sinst := mkSI { si_class : nat; si_stale : bool; si_vars : varmap }.
+(* si_unk: slots whose content S no longer knows: a writer about which S has no opinion (not declared by the
+   current definitions, or applied to an instance of a superseded class) may or may not have stored its argument *)
+Record sinst := mkSI { si_class : nat; si_stale : bool; si_vars : varmap; si_unk : list nat }.
 Record sworld := mkSW { s_tbl : list (nat * sdef); s_insts : list sinst; s_meths : list nat }.
 Definition sw0 : sworld := mkSW [] [] [].
 
@@ -111,7 +113,7 @@ Definition sstep (sw : sworld) (o : op) : sworld * option obs :=
       let redefinition := match lookup tbl n with Some _ => true | None => false end in
       let touched (c : nat) := Nat.eqb c n || match slin tbl c with Some l => memb n l | None => false end in
       let insts' := if redefinition
-                    then map (fun si => mkSI (si_class si) (si_stale si || touched (si_class si)) (si_vars si)) (s_insts sw)
+                    then map (fun si => mkSI (si_class si) (si_stale si || touched (si_class si)) (si_vars si) (si_unk si)) (s_insts sw)
                     else s_insts sw in
       let tbl' := set_assoc tbl n (mkSDef supers slots) in
       (mkSW tbl' insts' (s_meths sw),
@@ -129,7 +131,7 @@ Definition sstep (sw : sworld) (o : op) : sworld * option obs :=
               let P := n :: l in
               if valid_args (class_slots (s_tbl sw)) P args then
                 let vs := vars_S (class_slots (s_tbl sw)) P args in
-                (mkSW (s_tbl sw) (s_insts sw ++ [mkSI n false vs]) (s_meths sw),
+                (mkSW (s_tbl sw) (s_insts sw ++ [mkSI n false vs []]) (s_meths sw),
                  Some (OInst (map (slot_S (class_slots (s_tbl sw)) P args) (seq 0 NS))))
               else (sw, Some OErr)
           end
@@ -137,19 +139,24 @@ Definition sstep (sw : sworld) (o : op) : sworld * option obs :=
   | OSlotValue i s =>
       match nth_error (s_insts sw) i with
       | None => (sw, None)
-      | Some si => (sw, Some (match lookup (si_vars si) s with None => OErr | Some None => OUnb | Some (Some v) => OV v end))
+      | Some si =>
+          if memb s (si_unk si) then (sw, None)
+          else (sw, Some (match lookup (si_vars si) s with None => OErr | Some None => OUnb | Some (Some v) => OV v end))
       end
   | OBoundp i s =>
       match nth_error (s_insts sw) i with
       | None => (sw, None)
-      | Some si => (sw, Some (match lookup (si_vars si) s with None => OErr | Some None => OB false | Some (Some _) => OB true end))
+      | Some si =>
+          if memb s (si_unk si) then (sw, None)
+          else (sw, Some (match lookup (si_vars si) s with None => OErr | Some None => OB false | Some (Some _) => OB true end))
       end
   | OSetSlot i s v =>
       match nth_error (s_insts sw) i with
       | None => (sw, None)
       | Some si => match lookup (si_vars si) s with
                    | None => (sw, Some OErr)
-                   | Some _ => (sset_inst sw i (mkSI (si_class si) (si_stale si) (set_assoc (si_vars si) s (Some v))), Some (OV v))
+                   | Some _ => (sset_inst sw i (mkSI (si_class si) (si_stale si) (set_assoc (si_vars si) s (Some v))
+                                                     (filter (fun x => negb (Nat.eqb x s)) (si_unk si))), Some (OV v))
                    end
       end
   | OMakunbound i s =>
@@ -157,25 +164,31 @@ Definition sstep (sw : sworld) (o : op) : sworld * option obs :=
       | None => (sw, None)
       | Some si => match lookup (si_vars si) s with
                    | None => (sw, Some OErr)
-                   | Some _ => (sset_inst sw i (mkSI (si_class si) (si_stale si) (set_assoc (si_vars si) s None)), Some ODone)
+                   | Some _ => (sset_inst sw i (mkSI (si_class si) (si_stale si) (set_assoc (si_vars si) s None)
+                                                     (filter (fun x => negb (Nat.eqb x s)) (si_unk si))), Some ODone)
                    end
       end
   | OCall k s i v =>
       match nth_error (s_insts sw) i with
       | None => (sw, None)
       | Some si =>
+          let is_read := Nat.eqb k KR || Nat.eqb k KAR in
+          (* no opinion about a writer: from now on no opinion about the content of its slot either *)
+          let forget := if is_read then sw
+                        else sset_inst sw i (mkSI (si_class si) (si_stale si) (si_vars si) (s :: si_unk si)) in
           match s_user_cpl sw si with
-          | None => (sw, None)
+          | None => (forget, None)
           | Some P =>
               if declared (class_slots (s_tbl sw)) P k s then
                 match lookup (si_vars si) s with
-                | None => (sw, None)
+                | None => (forget, None)
                 | Some x =>
-                    if Nat.eqb k KR || Nat.eqb k KAR
-                    then (sw, Some (match x with None => OUnb | Some z => OV z end))
-                    else (sset_inst sw i (mkSI (si_class si) (si_stale si) (set_assoc (si_vars si) s (Some v))), Some (OV v))
+                    if is_read
+                    then (sw, if memb s (si_unk si) then None else Some (match x with None => OUnb | Some z => OV z end))
+                    else (sset_inst sw i (mkSI (si_class si) (si_stale si) (set_assoc (si_vars si) s (Some v))
+                                               (filter (fun x => negb (Nat.eqb x s)) (si_unk si))), Some (OV v))
                 end
-              else (sw, None)
+              else (forget, None)
           end
       end
   | OTypep i n =>
